@@ -23,6 +23,9 @@ CHECKS = {
  "C03": ("other", "inductive invariant over all slice-header stores of the package (enumerated from go/ssa): slot-0 provenance analysis + linear-arithmetic entailment (Fourier-Motzkin) of len <= capacity from path guards under the induction hypothesis; who-may-write check on the capacity word; return-case equations for the observers", "DESIGN.md §3 R-CAP/R-CAPEQ/R-SLOT0, §4 C03",
    "INV: capacity word == 0 or len(header) <= capacity word, for every header any stack ever holds. Base: newStack (word = request+1, backing array made with it). Frame: the word is written nowhere else, slot 0 always keeps the same configuration (provenance of every stored header; element stores/bulk copies use slots >= 1). Step: each of the 10 header stores of the package keeps INV on every path (linear entailment from isFull()==false on the very header extended / Insert's guard). Observers Len/Cap/Avail/IsFull/isFull are proved equal to their linear forms, which gives Cap()==k, Avail()==k-Len(), IsFull()==(Len()==k), -1/-1/false without capacity, and Len() <= k for all sequential histories of any calls.",
    "Level other: hand-written domains; which surplus values are dropped (order) is not decided; Defrag's truncation inherits the range assumption of C08; concurrency is C10."),
+ "C19": ("other", "value-provenance check of the two element stores of the compaction step, linear entailment at the loop exits, guard facts at the compaction/truncation/error sites, call-path checks of the nested recursion (go/ssa)", "DESIGN.md §3 R-PROV, §4 C19, §8",
+   "Narrow necessary conditions only: the compaction step moves a non-nil slot forward and clears exactly its source; the scan ends only at the limit or past the last slot; nothing is touched unless a gap was found; the recorded error is the verifier's verdict and truncation requires a nil verdict; nested Stacks (also inside Conditions, through the converters) are visited with the same limit; the limit is positive.",
+   "THE CORE IS NOT DECIDED (exact survivors, Len, Err). The pinned tree is known from independent exhaustive testing to violate it for most nil patterns; a pinned test depends on the faulty length, so it could not be repaired; see DESIGN.md §8."),
  "C20": ("other", "effect (write-set) analysis of Reveal's call-graph scope + value-provenance check of the single slot store and the single expression store with path facts + allocation census + lock re-entrancy analysis over held regions (CFG reachability, parameter-rooted lock summaries) + panic-site census restricted to the scope (go/ssa)", "DESIGN.md §3 R-PROV/R-LOCK, §4 C20",
    "Reveal's transitive write set contains no header store, configuration write or append (no stack changes length, kind or flags); its only slot store re-stores the stack found at that index or hoists its only child exactly under the stated condition (non-NOT, one element, Stack/Condition child, neither parenthetical); its only expression store returns the Condition's own expression stack; nothing is constructed (depth cannot grow); no held lock is re-acquired (no self-deadlock); no panic site in the scope.",
    "Necessary conditions (level other): equality of the leaf sequence and of the fully-unwrapped forms over all trees is not decided."),
